@@ -48,4 +48,45 @@ theorem followAll_append (p : Prog) (i0 : String) (f : Nat) : ∀ (H1 H2 : List 
       simp only [hs] at h ⊢
       exact ih H2 S' S1 h
 
+
+/-! ### the same for a flow with subflow calls (reference state `SK`) -/
+
+open NemoVerif.V1StackFollow in
+def refNextK (oracle : Oracle) (S : SK) (events : List REvent) : Option (List REvent) :=
+  match events.getLast? with
+  | none => none
+  | some (.start n p rk) => some (processStartAction oracle events n p rk)
+  | some (.ev .hidePrevTurn) => some [listen]
+  | some _ => some (S.dec.map decisionToREvent)
+
+open NemoVerif.V1StackFollow in
+def refLoopK (lib : Lib) (id : String) (p : Prog) (i0 : String) (fS : Nat) (oracle : Oracle) : Nat → SK → List REvent → List REvent → Option (List REvent)
+  | 0, _, _, _ => none
+  | f + 1, S, events, new =>
+    match refNextK oracle S events with
+    | none => none
+    | some nx =>
+      let nx := if nx.isEmpty then [listen] else nx
+      let new' := new ++ nx
+      if (nx.getLast?.map REvent.isListen).getD false then some new'
+      else if new'.length > 100 then some (new' ++ internalError GENERIC_ERROR ++ [listen])
+      else match followAllK lib id p i0 fS S (nx.map REvent.toEvent) with
+        | none => none
+        | some S' => refLoopK lib id p i0 fS oracle f S' (events ++ nx) new'
+
+open NemoVerif.V1StackFollow in
+theorem followAllK_append (lib : Lib) (id : String) (p : Prog) (i0 : String) (f : Nat) : ∀ (H1 H2 : List Event) (S S1 : SK),
+    followAllK lib id p i0 f S H1 = some S1 → followAllK lib id p i0 f S (H1 ++ H2) = followAllK lib id p i0 f S1 H2 := by
+  intro H1
+  induction H1 with
+  | nil => intro H2 S S1 h; simp only [followAllK, Option.some.injEq] at h; subst h; rfl
+  | cons e r ih =>
+    intro H2 S S1 h
+    simp only [followAllK, List.cons_append] at h ⊢
+    cases hs : followStepK lib id p i0 f S e with
+    | none => simp [hs] at h
+    | some S' =>
+      simp only [hs] at h ⊢
+      exact ih H2 S' S1 h
+
 end NemoVerif.V1RunL
